@@ -147,11 +147,10 @@ def replay_attributes(lmode, tmode, deref):
         shutil.rmtree(d, ignore_errors=True)
 
 
-def mtime_roundtrip(e2):
-    lo, hi = 2 ** e2, min(2 ** (e2 + 1), 4102444800)
-    r = ObResult(bounds="every double mtime in [%d, %d] (one binade of 1970..2100): from_datetime then totimestamp, the two "
+def mtime_roundtrip(lo, hi):
+    r = ObResult(bounds="every double mtime in [%d, %d] (a slice of one binade of 1970..2100): from_datetime then totimestamp, the two "
                         "float expressions taken from the AST, tolerance 5 microseconds" % (lo, hi))
-    eng = Engine([HP], intmode="int", solver_timeout_ms=300000)
+    eng = Engine([HP], intmode="int", solver_timeout_ms=600000)
 
     def harness(e):
         v = sfloat.declare(e, "mtime", lo, hi)
@@ -185,8 +184,10 @@ def replay_mtime():
 
 def units(tier):
     M = "vf.props.c02"
+    ranges = [(2 ** e2, 2 ** (e2 + 1)) for e2 in range(0, 31)]
+    ranges += [(2 ** 31, 2767045208), (2767045207, 4102444800)]   # top binade, cut where the FILETIME value crosses 2^57
     return [Unit("a.attributes", M, "attributes", {}, 900), Unit("c.writeall_dispatch", M, "writeall_dispatch", {}, 600)] + [
-        Unit("b.mtime_roundtrip[2^%d..2^%d]" % (e2, e2 + 1), M, "mtime_roundtrip", dict(e2=e2), 900) for e2 in range(0, 32)]
+        Unit("b.mtime_roundtrip[%d..%d]" % (a, b), M, "mtime_roundtrip", dict(lo=a, hi=b), 900) for (a, b) in ranges]
 
 
 # ---------------------------------------------------------------- c. one step of the writeall walk
